@@ -7,6 +7,9 @@ DEEP_KINDS = ["bare", "bareint", "barequoted", "barewild", "feq", "feqint", "feq
               "fgt", "fge", "flt", "fle", "frange", "fxrange", "fxirange", "fmrange", "flist", "flist3"]
 
 
+ALL_KINDS = DEEP_KINDS + ["barenint", "barefloat", "barere", "feqifloat", "feqempty", "baresame", "feqsame", "fduplist", "fduplist3", "frangesame"]
+
+
 def common_assumptions(run):
     run.assumptions += [
         "TLC 1.8.0 and the CommunityModules Json module evaluate the specification correctly",
@@ -17,6 +20,10 @@ def common_assumptions(run):
 
 def trees_pipeline(run, prop, observe=False):
     """Tree-driven part shared by C05/C07/C09/C11 (+C06/C10/C01 on the generated texts)."""
+    # the leaf zoo: every leaf form (incl. repeated values, equal bounds, empty strings) under every single operator
+    casesz, gz = stage_gen_trees(run, ALL_KINDS, 1, ws=1, muts=1, name="gen_zoo")
+    resz, _, _ = stage_groups(run, casesz, name="parse_zoo")
+    stage_judge_trees(run, resz, prop, casesz, name="judge_zoo")
     if run.tier == "quick":
         cases, g = stage_gen_trees(run, QUICK_KINDS, 2, ws=1, muts=2 if prop in ("C06", "C10", "C11", "C01") else 0)
         res, tr, s = stage_groups(run, cases, trace_every=25)
